@@ -16,6 +16,19 @@ CLAIMED = {
              "assigned below the top level are exercised only by the end-to-end oracle; C int is modelled unbounded with overflow as an explicit error at 32 bits (16-bit AVR "
              "int is a stronger side condition); langgen printers, pyoracle (CPython + host modules), mock core + host g++. Known findings K01a–K01j.",
         technique="Lean 4 compiler-correctness proof (simulation, induction on fuel/statements/N) + text, CPython and g++ correspondence ties + end-to-end oracle", ref="4/C01"),
+    "C02": dict(
+        text="Lean model of the type-assignment layer (Python bool/int/float/str values and evaluation, _infer_expr_type, first-declaration-wins with the parser's block "
+             "structure: context copies, promotion out of if/elif/else chains and loop bodies, C++ static typing and implicit conversion at stores). Proved for every "
+             "program in which each name only ever receives one inferred type and expressions are tame, and for EVERY execution path (any branches, any number of "
+             "iterations): the C++ store holds exactly Python's values (bool/int possibly widened, never narrowed); inferred type = compiler's type; a function result "
+             "is the join of its returns (upper bound, least, order-independent, rejection exactly for str/number mixes); the unrestricted statement is proved false by "
+             "witnesses. Ties: declared C++ types in the emission vs declareT; model Python store vs CPython; model C++ store vs compiled firmware; mergeReturn vs emitted "
+             "return types. Oracle: firmware-printed values vs CPython on block-structured scripts incl. every order of 2-3 differently-typed assignments at top level / "
+             "in a branch / in a loop, helper functions rebinding their parameters.",
+        note="Trusted: Lean kernel (propext, Classical.choice, Quot.sound); exact field arithmetic in theorems, float32/64 rounding only through the ties; function calls "
+             "are outside the expression model (tie + oracle only) — partial; mock core + host g++. Known findings K02a (first assignment fixes the type, wider later "
+             "values narrowed), K02b (int / int), K02c (and/or value), K02d (-bool).",
+        technique="Lean 4 simulation proof (Python vs C++ typed evaluation under the parser's declarations, induction on expressions and paths) + declared-type, CPython and firmware correspondence + value oracle", ref="4/C02"),
     "C04": dict(
         text="Lean theorems relating the emitted actuator blocks (Fw) to the host classes (Host): clamping of every PWM duty / servo command / motor speed for ARBITRARY "
              "arguments and states; for every call the host accepts, equal shadow state (so all eight state queries agree), last pin level = image of the host state, "
